@@ -126,7 +126,7 @@ def ref_printf(s):
         """optional `digits$` at j → (value or None, new j)"""
         k = digits(j)
         if k > j and k < n and s[k] == '$':
-            v = int(s[j:k]) if k - j <= 4300 else 10 ** 5000 if s[j:k].strip('0') else 0
+            v = int(s[j:k].lstrip('0') or '0')      # the harness process has no int() digit limit once lib is imported; lstrip keeps it cheap
             return v, k + 1
         return None, j
     try:
@@ -149,7 +149,7 @@ def ref_printf(s):
             elif i < n and s[i] in '123456789':
                 k = digits(i)
                 width = s[i:k]; i = k
-                if len(width) > 10 or int(width) > REF_INT_MAX: raise Invalid('width')
+                if len(width.lstrip('0')) > 10 or int(width.lstrip('0') or '0') > REF_INT_MAX: raise Invalid('width')
             prec = None
             if i < n and s[i] == '.':
                 i += 1
@@ -161,7 +161,7 @@ def ref_printf(s):
                 else:
                     k = digits(i)
                     prec = s[i:k].lstrip('0'); i = k
-                    if len(prec) > 10 or int(prec or '0') > REF_INT_MAX: raise Invalid('precision')
+                    if len(prec.lstrip('0')) > 10 or int(prec.lstrip('0') or '0') > REF_INT_MAX: raise Invalid('precision')
             if s.startswith('<PRI', i):
                 k = s.find('>', i)
                 name = s[i + 4:k] if k >= 0 else ''
